@@ -1,6 +1,7 @@
 package symex
 
 import (
+	"fmt"
 	"go/types"
 	"strings"
 
@@ -94,6 +95,220 @@ func (e *Exec) ibcPattern(fn *ssa.Function, name string) (Value, bool) {
 		return t, true
 	}
 	return nil, false
+}
+
+// ---- ante chain wiring (C15): the real (*App).setAnteHandler is executed; the SDK decorator
+// constructors run from their source, ChainAnteDecorators / SetAnteHandler record what was installed.
+
+func isAnteConstructor(full string) bool {
+	const pre = "github.com/cosmos/cosmos-sdk/x/auth/ante.New"
+	return strings.HasPrefix(full, pre) && strings.HasSuffix(full, "Decorator")
+}
+
+const defaultFeeChecker = "github.com/cosmos/cosmos-sdk/x/auth/ante.checkTxFeeWithValidatorMinGasPrices"
+
+func init() {
+	stubs["(*github.com/cosmos/cosmos-sdk/baseapp.BaseApp).SetAnteHandler"] = func(e *Exec, fn *ssa.Function, args []Value) Value {
+		e.path.events = append(e.path.events, "SetAnteHandler")
+		if f, ok := args[1].(*Func); !ok || f == nil || f.Stub != "antechain" {
+			e.path.events = append(e.path.events, "SetAnteHandler:not-a-chain")
+		}
+		e.Notes["stub BaseApp.SetAnteHandler: records the installed handler (baseapp runs it before the messages of every transaction - SDK behaviour, assumed)"] = true
+		return nil
+	}
+	stubs["github.com/cosmos/cosmos-sdk/types.ChainAnteDecorators"] = func(e *Exec, fn *ssa.Function, args []Value) Value {
+		chain, ok := args[0].(Slice)
+		if !ok {
+			panic(engineErr("ChainAnteDecorators: unexpected argument"))
+		}
+		e.Notes["stub sdk.ChainAnteDecorators: records the dynamic type of every decorator in order; the decorators' AnteHandle methods are SDK code (assumed, see ANTE-SIGNERS)"] = true
+		for i := 0; i < chain.Len; i++ {
+			d, ok := chain.Arr.Val.(*Array).Elems[chain.Off+i].(Iface)
+			if !ok || d.Typ == nil {
+				e.path.events = append(e.path.events, "ante:nil-decorator")
+				continue
+			}
+			tn := typeString(d.Typ)
+			e.path.events = append(e.path.events, "ante:type:"+tn)
+			if tn != "github.com/cosmos/cosmos-sdk/x/auth/ante.DeductFeeDecorator" {
+				continue
+			}
+			st, ok1 := d.Typ.Underlying().(*types.Struct)
+			sv, ok2 := d.Val.(*Struct)
+			if !ok1 || !ok2 {
+				if sv2, ok3 := d.Val.(Struct); ok3 {
+					sv, ok2 = &sv2, true
+				}
+			}
+			if !ok1 || !ok2 {
+				panic(engineErr("DeductFeeDecorator value not inspectable (%T)", d.Val))
+			}
+			found := false
+			for j := 0; j < st.NumFields(); j++ {
+				if st.Field(j).Name() != "txFeeChecker" {
+					continue
+				}
+				found = true
+				f, _ := sv.Fields[j].(*Func)
+				switch {
+				case f == nil || (f.Fn == nil && f.Stub == ""):
+					e.path.events = append(e.path.events, "ante:feechecker:nil")
+				case f.Fn != nil && f.Fn.String() == defaultFeeChecker:
+					e.path.events = append(e.path.events, "ante:feechecker:default")
+				default:
+					name := f.Stub
+					if f.Fn != nil {
+						name = f.Fn.String()
+					}
+					// a custom TxFeeChecker decides itself which coins are charged: it is executed in
+					// deliver mode on a transaction that declares an arbitrary fee (two denominations)
+					e.runCustomFeeChecker(f, name)
+				}
+			}
+			if !found {
+				panic(engineErr("DeductFeeDecorator has no txFeeChecker field (SDK version?)"))
+			}
+		}
+		e.path.events = append(e.path.events, fmt.Sprintf("ante:len:%d", chain.Len))
+		return &Func{Stub: "antechain"}
+	}
+}
+
+// runCustomFeeChecker executes a custom ante.TxFeeChecker from its source on (deliver-mode context,
+// FeeTx with symbolic fee coins and gas) and records declared and charged coins for vAnteFee*.
+func (e *Exec) runCustomFeeChecker(f *Func, name string) {
+	if f.Fn == nil {
+		panic(engineErr("custom TxFeeChecker %s is not a Go function that can be executed", name))
+	}
+	e.path.events = append(e.path.events, "ante:feechecker:custom")
+	e.Notes["custom TxFeeChecker "+name+": executed from its source in deliver mode (IsCheckTx=false) on a FeeTx declaring arbitrary amounts of two denominations (\"aaa\", \"umed\") and arbitrary gas; Int.QuoRaw is over-approximated (any value <= dividend; only the tx priority depends on it)"] = true
+	declared := &coinsVal{Amt: [2]*smt.Term{e.inputSym("fee_aaa"), e.inputSym("fee_umed")}}
+	gas := e.inputSym("gas")
+	tx := Iface{Typ: storeMarkerType, Val: Opaque{Kind: "feetx", Data: &feeTxData{Fee: declared, Gas: gas}}}
+	ctx := Opaque{Kind: "ctx", Data: &CtxData{Name: "ante-deliver"}}
+	res, ok := e.callFn(f.Fn, []Value{ctx, tx}, f.Bindings, nil).(Tuple)
+	if !ok || len(res) != 3 {
+		panic(engineErr("custom TxFeeChecker %s: unexpected result shape", name))
+	}
+	e.path.extra["anteDeclared"] = declared
+	if !isNilIface(res[2]) {
+		e.path.extra["anteRefused"] = true
+		return
+	}
+	switch c := res[0].(type) {
+	case Opaque:
+		if cv, ok := c.Data.(*coinsVal); ok && c.Kind == "coins" {
+			e.path.extra["anteCharged"] = cv
+			return
+		}
+	case Slice:
+		if c.Nil || c.Len == 0 {
+			e.path.extra["anteCharged"] = &coinsVal{Amt: [2]*smt.Term{c0, c0}}
+			return
+		}
+	}
+	panic(engineErr("custom TxFeeChecker %s returns coins in a form that is not modelled (%T)", name, res[0]))
+}
+
+type feeTxData struct {
+	Fee *coinsVal
+	Gas *smt.Term
+}
+
+func (e *Exec) inputSym(name string) *smt.Term {
+	site := e.siteKey(name)
+	t := smt.Var("in:"+site, smt.BV64)
+	e.addSite(NondetSite{Key: site, Kind: "u64", Term: t})
+	return t
+}
+
+func (e *Exec) feeTxMethod(o Opaque, method string) (Value, bool) {
+	d := o.Data.(*feeTxData)
+	switch method {
+	case "GetFee":
+		return Opaque{Kind: "coins", Data: d.Fee}, true
+	case "GetGas":
+		return d.Gas, true
+	}
+	return nil, false
+}
+
+func init() {
+	for _, m := range []string{"IsCheckTx", "IsReCheckTx"} {
+		stubs["(github.com/cosmos/cosmos-sdk/types.Context)."+m] = func(e *Exec, fn *ssa.Function, args []Value) Value {
+			e.Notes["Context.IsCheckTx / IsReCheckTx: false (block execution; mempool admission is not part of the properties)"] = true
+			return smt.False
+		}
+	}
+	stubs["github.com/cosmos/cosmos-sdk/types.NewCoin"] = func(e *Exec, fn *ssa.Function, args []Value) Value {
+		if _, ok := args[1].(Opaque); !ok {
+			panic(engineErr("sdk.NewCoin with an unmodelled amount"))
+		}
+		return &Struct{Fields: []Value{args[0], args[1]}}
+	}
+	stubs["github.com/cosmos/cosmos-sdk/types.NewCoins"] = func(e *Exec, fn *ssa.Function, args []Value) Value {
+		sl, ok := args[0].(Slice)
+		if !ok {
+			panic(engineErr("sdk.NewCoins: unexpected argument"))
+		}
+		out := &coinsVal{Amt: [2]*smt.Term{c0, c0}}
+		seen := [2]bool{}
+		for i := 0; i < sl.Len; i++ {
+			c, ok := sl.Arr.Val.(*Array).Elems[sl.Off+i].(*Struct)
+			if !ok {
+				panic(engineErr("sdk.NewCoins: unmodelled coin"))
+			}
+			dn, ok := strView(c.Fields[0].(Str)).concrete()
+			amt, ok2 := c.Fields[1].(Opaque)
+			if !ok || !ok2 {
+				panic(engineErr("sdk.NewCoins: coin with a symbolic denomination"))
+			}
+			t, ok3 := amt.Data.(*smt.Term)
+			if !ok3 {
+				panic(engineErr("sdk.NewCoins: unmodelled amount"))
+			}
+			d := -1
+			for k := range bankDenoms {
+				if bankDenoms[k] == dn {
+					d = k
+				}
+			}
+			if d < 0 {
+				panic(engineErr("sdk.NewCoins: denomination %q is not one of the two modelled ones", dn))
+			}
+			if seen[d] {
+				e.goPanicf("find duplicate denoms")
+			}
+			seen[d] = true
+			out.Amt[d] = t
+		}
+		return Opaque{Kind: "coins", Data: out}
+	}
+	stubs["(cosmossdk.io/math.Int).QuoRaw"] = func(e *Exec, fn *ssa.Function, args []Value) Value {
+		t, ok := args[0].(Opaque).Data.(*smt.Term)
+		d, ok2 := args[1].(*smt.Term)
+		if !ok || !ok2 {
+			panic(engineErr("math.Int.QuoRaw on an unmodelled value"))
+		}
+		if e.branch(smt.Eq(d, c0)) {
+			e.goPanicf("division by zero")
+		}
+		q := e.fresh("quo", smt.BV64)
+		e.assume(smt.ULe(q, t))
+		return Opaque{Kind: "sdkint", Data: q}
+	}
+	// vAnteFeeOK(): the custom fee checker refused the transaction, or charges exactly the declared coins
+	extraIntrinsics["vAnteFeeOK"] = func(e *Exec, fn *ssa.Function, args []Value) Value {
+		if r, _ := e.path.extra["anteRefused"].(bool); r {
+			return smt.True
+		}
+		d, ok := e.path.extra["anteDeclared"].(*coinsVal)
+		c, ok2 := e.path.extra["anteCharged"].(*coinsVal)
+		if !ok || !ok2 {
+			return smt.True // default checker: nothing recorded
+		}
+		return smt.And(smt.Eq(d.Amt[0], c.Amt[0]), smt.Eq(d.Amt[1], c.Amt[1]))
+	}
 }
 
 var _ = smt.True
